@@ -413,7 +413,7 @@ def child_worker(cell, fake_text):
         cfg.set("initgroups", cell["ig"])
         cfg.set("umask", cell["umask"])
         cfg.set("reload", cell["reload"])
-        cfg.set("worker_tmp_dir", cell["tmpdir"])
+        cfg.set("worker_tmp_dir", cell.get("tmpdir"))
         real_sop = util.set_owner_process
 
         def sop(*a, **k):
